@@ -246,6 +246,7 @@ Section WithSig.
       { intros any' H. destruct (IH _ _ H) as (j & sg' & keys & Hi & Hn & Hl & Hv).
         exists (S j), sg', keys. split; [rewrite Hi; f_equal; lia|]. split; [exact Hn|auto]. }
       destruct (8 <? i)%nat; [apply Next|].
+      destruct (negb (zone_of (s_signer (g_in sg)) kname)); [apply Next|].
       destruct (name_eqb (s_signer (g_in sg)) qname && (qtype =? 48)); [apply Next|].
       destruct (lookup (s_signer (g_in sg))) as [keys|] eqn:L; [|apply Next].
       destruct (verify_rrsig_with_keys keys sg kname ktype rs now) as [[p t']|] eqn:V; [|discriminate].
@@ -259,6 +260,7 @@ Section WithSig.
     induction sigs as [|sg sigs IH]; intros i kname ktype rs now any p c; cbn [Model.select_sigs].
     - destruct any; intros [= <- _]; reflexivity.
     - destruct (8 <? i)%nat; [apply IH|].
+      destruct (negb (zone_of (s_signer (g_in sg)) kname)); [apply IH|].
       destruct (name_eqb (s_signer (g_in sg)) qname && (qtype =? 48)); [apply IH|].
       destruct (lookup (s_signer (g_in sg))) as [keys|]; [|apply IH].
       destruct (verify_rrsig_with_keys keys sg kname ktype rs now) as [[p' t']|]; [discriminate|].
@@ -268,6 +270,35 @@ Section WithSig.
     default_rrset lookup qname qtype kname ktype rs sigs now = GErr p c -> p = Bogus.
   Proof.
     unfold Model.default_rrset. destruct sigs; [intros [= <- _]; reflexivity|apply select_sigs_err].
+  Qed.
+
+  (* since fix 6b7ad4d: the RRSIG behind a Secure verdict names the RRset owner or an ancestor of it *)
+  Lemma select_sigs_secure_zone lookup qname qtype i sigs kname ktype rs now any t idx :
+    select_sigs lookup qname qtype i sigs kname ktype rs now any = GOk Secure t idx ->
+    exists j sg, idx = Some (i + j)%nat /\ nth_error sigs j = Some sg /\
+                 zone_of (s_signer (g_in sg)) kname = true.
+  Proof.
+    revert i any. induction sigs as [|sg sigs IH]; intros i any; cbn [Model.select_sigs].
+    - destruct any; discriminate.
+    - assert (forall any', select_sigs lookup qname qtype (S i) sigs kname ktype rs now any' = GOk Secure t idx ->
+                exists j sg', idx = Some (i + j)%nat /\ nth_error (sg :: sigs) j = Some sg' /\
+                      zone_of (s_signer (g_in sg')) kname = true) as Next.
+      { intros any' H. destruct (IH _ _ H) as (j & sg' & Hi & Hn & Hz).
+        exists (S j), sg'. split; [rewrite Hi; f_equal; lia|]. split; [exact Hn|exact Hz]. }
+      destruct (8 <? i)%nat; [apply Next|].
+      destruct (zone_of (s_signer (g_in sg)) kname) eqn:Z; cbn [negb]; [|apply Next].
+      destruct (name_eqb (s_signer (g_in sg)) qname && (qtype =? 48)); [apply Next|].
+      destruct (lookup (s_signer (g_in sg))) as [keys|] eqn:L; [|apply Next].
+      destruct (verify_rrsig_with_keys keys sg kname ktype rs now) as [[p t']|] eqn:V; [|discriminate].
+      intros [= -> -> <-]. exists O, sg. split; [f_equal; lia|]. split; [reflexivity|exact Z].
+  Qed.
+  Lemma default_rrset_secure_zone lookup qname qtype kname ktype rs sigs now t idx :
+    default_rrset lookup qname qtype kname ktype rs sigs now = GOk Secure t idx ->
+    exists j sg, idx = Some j /\ nth_error sigs j = Some sg /\ zone_of (s_signer (g_in sg)) kname = true.
+  Proof.
+    unfold Model.default_rrset. destruct sigs as [|s0 sigs]; [discriminate|].
+    intros H. destruct (select_sigs_secure_zone _ _ _ _ _ _ _ _ _ _ _ _ H) as (j & sg & Hi & R).
+    exists j, sg. split; [exact Hi|exact R].
   Qed.
 
   Lemma default_rrset_secure lookup qname qtype kname ktype rs sigs now t idx :
